@@ -94,6 +94,8 @@ type hist struct {
 	// its source connection broke before the first byte; Voided = 0 with IDOnly = only SetRunId so far
 	Voided int64 `json:"voided_at,omitempty"`
 	IDOnly bool  `json:"id_only,omitempty"`
+	// Continues: not a history of its own — the id the leader's source switches to by +CONTINUE
+	Continues bool `json:"continues,omitempty"`
 }
 
 func (h hist) empty() bool { return h.ID == "" }
@@ -198,8 +200,19 @@ func (f *feeder) fullSync(id string, left, size int64, pace func(done int64)) er
 			return fmt.Errorf("%w: NewRdbWriter: %v", errHarness, err)
 		}
 		w.Start()
-		if err := writeChunks(pw, rdbKey(id, left), 0, size, pace); err != nil {
-			return fmt.Errorf("%w: snapshot feed: %v", errHarness, err)
+		snap := rdbBytes(id, left, size)
+		for done := int64(0); done < size; {
+			c := size - done
+			if c > 3000 {
+				c = 3000
+			}
+			if _, err := pw.Write(snap[done : done+c]); err != nil {
+				return fmt.Errorf("%w: snapshot feed: %v", errHarness, err)
+			}
+			done += c
+			if pace != nil {
+				pace(done)
+			}
 		}
 		ctx, cancel := context.WithTimeout(context.Background(), feedWatchdog)
 		err = w.Wait(ctx)
@@ -239,6 +252,33 @@ func (f *feeder) load(h hist) error {
 		f.input.set(h.ID, zeroReplID)
 	}
 	return f.append(h.LogRight - h.LogLeft)
+}
+
+// failover mirrors what RedisInput.syncMeta/syncData do when the source has failed over and answers
+// the PSYNC with +CONTINUE <new id>: the source connection is new (the old log writer ended), the
+// input reports [new, old], the cache is re-keyed with SetRunId(new) - no DelRunId - and a new log
+// writer continues at the same offset, now fed by the promoted master.
+func (f *feeder) failover(newID string) (oldID string, at int64, err error) {
+	f.mu.Lock()
+	oldID, at = f.id, f.right
+	f.mu.Unlock()
+	f.closeLog()
+	if f.input != nil {
+		f.input.set(newID, oldID)
+	}
+	if err := f.ch.SetRunId(newID); err != nil {
+		return oldID, at, fmt.Errorf("%w: SetRunId: %v", errHarness, err)
+	}
+	pr, pw := io.Pipe()
+	aw, err := f.ch.NewAofWritter(bufio.NewReaderSize(pr, 64*1024), at)
+	if err != nil {
+		return oldID, at, fmt.Errorf("%w: NewAofWritter after fail-over: %v", errHarness, err)
+	}
+	aw.Start()
+	f.mu.Lock()
+	f.id, f.pw, f.aw, f.right, f.upper = newID, pw, aw, at, at
+	f.mu.Unlock()
+	return oldID, at, nil
 }
 
 // adoptIDOnly leaves the channel with the source's run id and no byte: what RedisInput.syncMeta +
